@@ -344,3 +344,217 @@ Section Die.
     cbn [flat_map]. rewrite map_app, IH, map_map. reflexivity.
   Qed.
 End Die.
+
+(* ------------------------------------------------------------------ *)
+(* the Allocation constructor                                           *)
+(* ------------------------------------------------------------------ *)
+Lemma mk_allocation_inv aeps cs cs' : mk_allocation aeps cs = Some cs' -> cs' = cs.
+Proof.
+  unfold mk_allocation. destruct cs; [discriminate|].
+  destruct (_ && _ && _ && _); [|discriminate]. intro H. inversion H. reflexivity.
+Qed.
+
+Lemma finalize_inv aeps new out : finalize aeps new = Accept out -> out = new /\ mk_allocation aeps new = Some new.
+Proof.
+  unfold finalize. destruct (mk_allocation aeps new) as [cs|] eqn:E.
+  - intro H. inversion H. subst. pose proof (mk_allocation_inv _ _ _ E). subst. auto.
+  - destruct new; [discriminate|]. destruct (_ && _ && _); discriminate.
+Qed.
+
+(* ------------------------------------------------------------------ *)
+(* the map of a refinable cell                                          *)
+(* ------------------------------------------------------------------ *)
+Lemma lookup_absent n a : ~ In n (map fst a) -> lookup n a = None.
+Proof.
+  induction a as [|[k v] a IH]; cbn [map lookup fst]; intro H; [reflexivity|].
+  destruct (String.eqb k n) eqn:E; [apply String.eqb_eq in E; exfalso; apply H; left; exact E|].
+  apply IH. intro Hin. apply H. right. exact Hin.
+Qed.
+
+Lemma lookup_app n a b : lookup n (a ++ b) = match lookup n a with Some q => Some q | None => lookup n b end.
+Proof.
+  induction a as [|[k v] a IH]; cbn [app lookup]; [reflexivity|]. destruct (String.eqb k n); auto.
+Qed.
+
+Lemma alloc_of_keys inc0 ms c n : In n (map fst (alloc_of inc0 ms c)) -> In n (map mname ms).
+Proof.
+  unfold alloc_of. induction ms as [|m ms IH]; cbn [flat_map map]; [auto|].
+  rewrite map_app, in_app_iff. intros [H|H]; [|right; auto].
+  cbv zeta in H. destruct (inc0 || Qcltb 0 (cov_ratio c (mrects m))); [|destruct H].
+  destruct H as [<-|[]]. left. reflexivity.
+Qed.
+
+Lemma lookup_alloc_of inc0 ms c m : NoDup (map mname ms) -> In m ms ->
+  lookup (mname m) (alloc_of inc0 ms c) =
+  if inc0 || Qcltb 0 (cov_ratio c (mrects m)) then Some (cov_ratio c (mrects m)) else None.
+Proof.
+  induction ms as [|x ms IH]; cbn [map]; intros Hn Hin; [destruct Hin|].
+  inversion Hn as [|? ? Hx Hn']; subst.
+  change (alloc_of inc0 (x :: ms) c) with
+    ((if inc0 || Qcltb 0 (cov_ratio c (mrects x)) then [(mname x, cov_ratio c (mrects x))] else [])
+     ++ alloc_of inc0 ms c).
+  rewrite lookup_app. destruct Hin as [->|Hin].
+  - destruct (inc0 || Qcltb 0 (cov_ratio c (mrects m))).
+    + cbn [lookup]. rewrite String.eqb_refl. reflexivity.
+    + cbn [lookup]. apply lookup_absent. intro H. apply Hx. eapply alloc_of_keys. exact H.
+  - assert (Hne : String.eqb (mname x) (mname m) = false).
+    { apply String.eqb_neq. intro E. apply Hx. rewrite E. apply in_map. exact Hin. }
+    destruct (inc0 || Qcltb 0 (cov_ratio c (mrects x))); cbn [lookup]; [rewrite Hne|]; apply IH; assumption.
+Qed.
+
+Lemma cov_ratio_nonneg c rs : wf c -> 0 <= cov_ratio c rs.
+Proof. intro W. rewrite cov_ratio_eq. apply div_pos_nonneg; [apply covered_nonneg|apply wf_area_pos; exact W]. Qed.
+
+Lemma ratio_alloc_of inc0 ms c m d : wf c -> NoDup (map mname ms) -> In m ms ->
+  ratio (mname m) (mkCell c (alloc_of inc0 ms c) d) = cov_ratio c (mrects m).
+Proof.
+  intros W Hn Hin. unfold ratio. cbn [calloc]. rewrite (lookup_alloc_of inc0 ms c m Hn Hin).
+  destruct (inc0 || Qcltb 0 (cov_ratio c (mrects m))) eqn:E; [reflexivity|].
+  apply orb_false_iff in E. destruct E as [_ E]. qb2p. pose proof (cov_ratio_nonneg c (mrects m) W). qlra.
+Qed.
+
+Lemma shape_wf sqrt_o m : Forall wf (mrects m) -> Forall wf (shape sqrt_o m).
+Proof.
+  intro H. unfold shape. destruct (mrects m) eqn:Er; [|exact H]. unfold create_square.
+  destruct (mcenter m) as [[x y]|]; [|constructor]. destruct (Qcltb (marea m) 0); [constructor|].
+  destruct (Qcltb 0 (sqrt_o (marea m))) eqn:E; [|constructor]. qb2p.
+  constructor; [|constructor]. split; exact E.
+Qed.
+
+Lemma shape_pairwise sqrt_o m : pairwise_no_ov (mrects m) -> pairwise_no_ov (shape sqrt_o m).
+Proof.
+  intro H. unfold shape. destruct (mrects m) eqn:Er; [|exact H].
+  destruct (create_square sqrt_o m); cbn [pairwise_no_ov]; auto.
+Qed.
+
+(* ------------------------------------------------------------------ *)
+(* the initial allocation of a netlist on a die                         *)
+(* ------------------------------------------------------------------ *)
+Section Main.
+  Variable sqrt_o : Qc -> Qc.
+  Hypothesis Hsqrt : sqrt_contract sqrt_o.
+  Notation shape := (shape sqrt_o).
+  Notation squared := (squared sqrt_o).
+
+  (* what a die and its netlist guarantee: the cells (refinable regions R, fixed regions Fx) are
+     proper rectangles without common area; the fixed regions are the rectangles of the fixed
+     modules (Die takes them from netlist.fixed_rectangles()); refinable regions are not marked
+     fixed; module names are distinct; a module without rectangles has a centre and a positive
+     area (no terminals) *)
+  Definition compatible (R Fx : list Rect) (mods : list nmod) : Prop :=
+    Forall wf (R ++ Fx) /\ pairwise_no_ov (R ++ Fx) /\
+    Forall (fun r => fixed r = false) R /\
+    Fx = flat_map mrects (filter mfixed mods) /\
+    Forall (fun m => mfixed m = true -> mrects m <> []) mods /\
+    NoDup (map mname mods) /\
+    Forall (fun m => mrects m = [] -> (exists p, mcenter m = Some p) /\ 0 < marea m) mods.
+
+  Lemma filter_squared mods : filter mfixed (map squared mods) = map squared (filter mfixed mods).
+  Proof.
+    induction mods as [|m l IH]; [reflexivity|]. cbn [map filter]. rewrite squared_fixed.
+    destruct (mfixed m); cbn [map]; rewrite IH; reflexivity.
+  Qed.
+
+  Lemma fixed_rects_squared mods : Forall (fun m => mfixed m = true -> mrects m <> []) mods ->
+    flat_map mrects (filter mfixed (map squared mods)) = flat_map mrects (filter mfixed mods).
+  Proof.
+    intro H. rewrite filter_squared, flat_map_map_c.
+    induction mods as [|m l IH]; [reflexivity|]. inversion H as [|? ? Hm Hl]; subst. cbn [filter].
+    destruct (mfixed m) eqn:E; [|auto]. cbn [flat_map]. rewrite (IH Hl), squared_rects, shape_rects; auto.
+  Qed.
+
+  Lemma names_squared mods : map mname (map squared mods) = map mname mods.
+  Proof. rewrite map_map. apply map_ext. reflexivity. Qed.
+
+  (* the list of cells the construction hands to the Allocation constructor *)
+  Definition expected (inc0 : bool) (R : list Rect) (mods : list nmod) : list cell :=
+    out_cells R (map squared mods) inc0.
+
+  Theorem ia_cells feps aeps inc0 R Fx mods : compatible R Fx mods -> 0 < feps -> feps < 1 ->
+    initial_allocation sqrt_o feps aeps inc0 R Fx mods =
+    match mk_allocation aeps (init_cells R Fx) with
+    | None => Reject RCells
+    | Some _ => finalize aeps (expected inc0 R mods)
+    end.
+  Proof.
+    intros (HW & HP & HR & HF & HX & HN & HS) H0 H1. unfold initial_allocation.
+    destruct (mk_allocation aeps (init_cells R Fx)) as [cells|] eqn:E; [|reflexivity].
+    apply mk_allocation_inv in E. subst cells.
+    rewrite (create_squares_defined sqrt_o mods Hsqrt HS).
+    set (ms := map squared mods).
+    assert (EF : Fx = flat_map mrects (filter mfixed ms)) by (unfold ms; rewrite fixed_rects_squared; assumption).
+    assert (HN' : NoDup (map mname ms)) by (unfold ms; rewrite names_squared; exact HN).
+    rewrite EF in HW, HP |- *.
+    rewrite (detect_die R ms HW HP feps H0 H1).
+    rewrite (counts_die ms HN').
+    rewrite (rest_die R ms HR inc0 ms), prealloc_die. reflexivity.
+  Qed.
+
+  Lemma ia_accept_inv feps aeps inc0 R Fx mods out : compatible R Fx mods -> 0 < feps -> feps < 1 ->
+    initial_allocation sqrt_o feps aeps inc0 R Fx mods = Accept out -> out = expected inc0 R mods.
+  Proof.
+    intros Hc H0 H1. rewrite (ia_cells feps aeps inc0 R Fx mods Hc H0 H1).
+    destruct (mk_allocation aeps (init_cells R Fx)); [|discriminate].
+    intro H. apply finalize_inv in H. tauto.
+  Qed.
+
+  Lemma cell_ratio inc0 R Fx mods c m d : compatible R Fx mods -> In c R -> In m mods ->
+    ratio (mname m) (mkCell c (alloc_of inc0 (map squared mods) c) d) = covered c (shape m) / area c.
+  Proof.
+    intros (HW & HP & HR & HF & HX & HN & HS) Hc Hm.
+    assert (W : wf c) by (rewrite Forall_forall in HW; apply HW; apply in_or_app; left; exact Hc).
+    change (mname m) with (mname (squared m)).
+    rewrite ratio_alloc_of; [|exact W|rewrite names_squared; exact HN|apply in_map; exact Hm].
+    rewrite squared_rects. apply cov_ratio_eq.
+  Qed.
+
+  Lemma in_expected_ref inc0 R mods c : In c R ->
+    In (mkCell c (alloc_of inc0 (map squared mods) c) 0%nat) (expected inc0 R mods).
+  Proof.
+    intro Hc. unfold expected, out_cells. apply in_or_app. right.
+    apply (in_map (fun r => mkCell r (alloc_of inc0 (map squared mods) r) 0%nat)). exact Hc.
+  Qed.
+
+  (* every refinable cell records, for every module, exactly the covered fraction *)
+  Theorem ia_ratio feps aeps inc0 R Fx mods out : compatible R Fx mods -> 0 < feps -> feps < 1 ->
+    initial_allocation sqrt_o feps aeps inc0 R Fx mods = Accept out ->
+    forall c, In c R -> exists cell, In cell out /\ crect cell = c /\ cdepth cell = 0%nat /\
+      forall m, In m mods ->
+        ratio (mname m) cell = covered c (shape m) / area c /\
+        0 <= ratio (mname m) cell /\
+        (pairwise_no_ov (mrects m) -> Forall wf (mrects m) -> ratio (mname m) cell <= 1).
+  Proof.
+    intros Hc H0 H1 Ha c Hin. rewrite (ia_accept_inv feps aeps inc0 R Fx mods out Hc H0 H1 Ha).
+    exists (mkCell c (alloc_of inc0 (map squared mods) c) 0%nat).
+    split; [apply in_expected_ref; exact Hin|]. split; [reflexivity|]. split; [reflexivity|].
+    intros m Hm. rewrite (cell_ratio inc0 R Fx mods c m 0%nat Hc Hin Hm).
+    assert (W : wf c).
+    { destruct Hc as (HW & _). rewrite Forall_forall in HW. apply HW. apply in_or_app. left. exact Hin. }
+    pose proof (wf_area_pos c W) as Ap.
+    split; [reflexivity|]. split.
+    - apply div_pos_nonneg; [apply covered_nonneg|exact Ap].
+    - intros Pm Wm. apply div_le_1; [|exact Ap].
+      apply covered_le_area; [exact W|apply shape_pairwise; exact Pm|apply shape_wf; exact Wm].
+  Qed.
+
+  (* without zero entries a module is listed in a refinable cell iff it covers part of it *)
+  Theorem ia_listed_iff feps aeps R Fx mods out : compatible R Fx mods -> 0 < feps -> feps < 1 ->
+    initial_allocation sqrt_o feps aeps false R Fx mods = Accept out ->
+    forall c, In c R -> exists cell, In cell out /\ crect cell = c /\
+      forall m, In m mods ->
+        ((exists q, lookup (mname m) (calloc cell) = Some q) <-> 0 < covered c (shape m)).
+  Proof.
+    intros Hc H0 H1 Ha c Hin. rewrite (ia_accept_inv feps aeps false R Fx mods out Hc H0 H1 Ha).
+    exists (mkCell c (alloc_of false (map squared mods) c) 0%nat).
+    split; [apply in_expected_ref; exact Hin|]. split; [reflexivity|].
+    intros m Hm. cbn [calloc]. destruct Hc as (HW & HP & HR & HF & HX & HN & HS).
+    assert (W : wf c) by (rewrite Forall_forall in HW; apply HW; apply in_or_app; left; exact Hin).
+    change (mname m) with (mname (squared m)).
+    rewrite lookup_alloc_of; [|rewrite names_squared; exact HN|apply in_map; exact Hm].
+    rewrite squared_rects, cov_ratio_eq. cbn [orb].
+    pose proof (div_pos_iff (covered c (shape m)) (area c) (wf_area_pos c W)) as D.
+    destruct (Qcltb 0 (covered c (shape m) / area c)) eqn:E; qb2p.
+    - split; [intros _; apply D; exact E|intros _; eexists; reflexivity].
+    - split; [intros [q Hq]; discriminate|]. intro Hp. apply D in Hp. exfalso. qlra.
+  Qed.
+End Main.
